@@ -20,6 +20,7 @@ type SpecEnv struct {
 	pkg    *packages.Package
 	qdepth int
 	inOld  bool
+	resultIdx int
 	label  map[string]*State
 }
 
@@ -97,6 +98,16 @@ func (env *SpecEnv) typeOf(name string) types.Type {
 	tv, err := types.Eval(env.fx.w.Fset, pkg.Types, token.NoPos, name)
 	if err == nil && tv.IsType() {
 		return tv.Type
+	}
+	if env.pos.IsValid() {
+		if tv, err := types.Eval(env.fx.w.Fset, pkg.Types, env.pos, name); err == nil && tv.IsType() {
+			return tv.Type
+		}
+	}
+	if env.fx.fi != nil && env.fx.fi.Pkg == pkg {
+		if tv, err := types.Eval(env.fx.w.Fset, pkg.Types, env.fx.fi.Body.Lbrace, name); err == nil && tv.IsType() {
+			return tv.Type
+		}
 	}
 	// (*T)(nil) style for pointer types
 	sfail("unknown type %q", name)
@@ -525,6 +536,12 @@ func (fx *Fx) specIdent(env *SpecEnv, name string) Val {
 	case "Δlen":
 		return Val{T: fmt.Sprintf("(- %s %s)", env.st.evlen, env.old.evlen), S: "Int", GT: types.Typ[types.Int]}
 	}
+	if strings.HasPrefix(name, "rk") {
+		// rk<N>: the hidden iteration counter of range loop N (0-based number of completed iterations)
+		if g, ok := st.ghost[name]; ok {
+			return Val{T: g, S: "Int", GT: types.Typ[types.Int]}
+		}
+	}
 	if g, ok := st.ghost["g:"+name]; ok {
 		return Val{T: g, S: "Int", GT: types.Typ[types.Int]}
 	}
@@ -562,10 +579,23 @@ func (fx *Fx) specIdent(env *SpecEnv, name string) Val {
 		if !ok && fx.entry != nil {
 			t, ok = fx.entry.vars[o]
 		}
+		if !ok && fx.fi != nil && fx.fi.Lit != nil && (o.Pos() < fx.fi.Lit.Pos() || o.Pos() > fx.fi.Lit.End()) {
+			// captured variable of the enclosing function: a free input of the literal
+			fx.ensureVar(env.st, o)
+			t, ok = env.st.vars[o]
+			if env.old != nil {
+				if _, has := env.old.vars[o]; !has {
+					env.old.vars[o] = t
+				}
+			}
+		}
 		if !ok {
 			sfail("variable %s is not in scope here", name)
 		}
 		if c.boxedVars[o] {
+			if s, named, isPtr := structOf(o.Type()); s != nil && !isPtr && !opaqueNamed(named) {
+				return fx.readStructAt(st, t, o.Type())
+			}
 			srt := c.sortOf(o.Type())
 			h := st.heap("P:"+typeKey(o.Type()), "(Array Int "+srt+")")
 			return Val{T: fmt.Sprintf("(select %s %s)", h, t), S: srt, GT: o.Type()}
@@ -735,8 +765,11 @@ func (fx *Fx) specCall(env *SpecEnv, e *SCall) Val {
 			return Val{T: evTerm(id.Name, arg(0).T, a0, a1, ""), S: "Ev"}
 		case "Close":
 			return Val{T: evTerm("Close", arg(0).T, "", "", ""), S: "Ev"}
-		case "isSend", "isRecv", "isClose", "isTrace", "isSpawn", "isLock", "isUnlock", "isWgAdd", "isWgDone", "isWgWait", "isCall":
+		case "isSend", "isRecv", "isClose", "isTrace", "isSpawn", "isLock", "isUnlock", "isWgAdd", "isWgDone", "isWgWait", "isCall", "isOther":
 			return Val{T: fmt.Sprintf("(= (ev_kind %s) %d)", arg(0).T, evKinds[strings.TrimPrefix(id.Name, "is")]), S: "Bool", GT: boolT}
+		case "isOpaque":
+			// calls of function values and events of unknown code
+			return Val{T: fmt.Sprintf("(>= (ev_kind %s) %d)", arg(0).T, evKinds["Call"]), S: "Bool", GT: boolT}
 		case "evch":
 			return Val{T: "(ev_ch " + arg(0).T + ")", S: "Int", GT: intT}
 		case "evval":
@@ -818,6 +851,35 @@ func (fx *Fx) specCall(env *SpecEnv, e *SCall) Val {
 			return Val{T: fmt.Sprintf("(select %s %s)", st.heap("CC", "(Array Int Bool)"), arg(0).T), S: "Bool", GT: boolT}
 		case "chancap":
 			return Val{T: fmt.Sprintf("(select %s %s)", st.heap("CP", "(Array Int Int)"), arg(0).T), S: "Int", GT: intT}
+		case "mu":
+			// mu(x.f): identity of the lock stored in field f of object x
+			sel, ok := e.Args[0].(*SSelector)
+			if !ok {
+				sfail("mu() needs a field selector")
+			}
+			x := fx.specEval(env, sel.X)
+			cur := x
+			obj, index, _ := types.LookupFieldOrMethod(x.GT, true, fx.pkgOf(x.GT, env), sel.Sel)
+			if _, ok := obj.(*types.Var); !ok {
+				sfail("mu(): no field %s", sel.Sel)
+			}
+			key := ""
+			for k, idx := range index {
+				s, named, isPtr := structOf(cur.GT)
+				if s == nil || !isPtr && k > 0 {
+					sfail("mu(): unsupported field path")
+				}
+				fl := s.Field(idx)
+				key = fieldKey(named, fl.Name())
+				if k < len(index)-1 {
+					fs := c.sortOf(fl.Type())
+					h := st.heap(key, "(Array Int "+fs+")")
+					cur = Val{T: fmt.Sprintf("(select %s %s)", h, cur.T), S: fs, GT: fl.Type()}
+				}
+			}
+			name := "addr_" + sanitize(key)
+			c.declareFun(name, []string{"Int"}, "Int")
+			return Val{T: fmt.Sprintf("(%s %s)", name, cur.T), S: "Int", GT: intT}
 		case "held":
 			return Val{T: fmt.Sprintf("(select %s %s)", st.heap("LK", "(Array Int Int)"), arg(0).T), S: "Int", GT: intT}
 		case "has":
@@ -831,6 +893,23 @@ func (fx *Fx) specCall(env *SpecEnv, e *SCall) Val {
 			ks := c.sortOf(mt.Key())
 			hd := st.heap("MD:"+typeKey(m.GT), "(Array Int (Array "+ks+" Bool))")
 			return Val{T: fmt.Sprintf("(select (select %s %s) %s)", hd, m.T, k.T), S: "Bool", GT: boolT}
+		case "onlymap":
+			// onlymap(m): among all maps of m's type, only m may differ from the old state
+			m := arg(0)
+			mt, ok := types.Unalias(m.GT).Underlying().(*types.Map)
+			if !ok {
+				sfail("onlymap() on non-map")
+			}
+			ks, vs := c.sortOf(mt.Key()), c.sortOf(mt.Elem())
+			key := typeKey(m.GT)
+			hds, hvs := "(Array Int (Array "+ks+" Bool))", "(Array Int (Array "+ks+" "+vs+"))"
+			return Val{T: fmt.Sprintf("(forall ((r!m Int)) (=> (and (not (= r!m %s)) (<= r!m %s)) (and (= (select %s r!m) (select %s r!m)) (= (select %s r!m) (select %s r!m)))))",
+				m.T, env.old.alloc, env.st.heap("MD:"+key, hds), env.old.heap("MD:"+key, hds), env.st.heap("MV:"+key, hvs), env.old.heap("MV:"+key, hvs)), S: "Bool", GT: boolT}
+		case "second":
+			// second(x.M(args)): the second result of a pure call
+			n := *env
+			n.resultIdx = 1
+			return fx.specEval(&n, e.Args[0])
 		case "fresh":
 			// fresh(p): allocated during this activation
 			return Val{T: fmt.Sprintf("(> %s %s)", arg(0).T, env.old.alloc), S: "Bool", GT: boolT}
@@ -921,7 +1000,24 @@ func (fx *Fx) specCall(env *SpecEnv, e *SCall) Val {
 		sfail("unknown function %q in contract", id.Name)
 	}
 	if sel, ok := e.Fun.(*SSelector); ok {
-		// qualified spec function pkg.f(...) or method call on a program value
+		// package-qualified program function: pkg.F(args)
+		if id, ok := sel.X.(*SIdent); ok {
+			if _, bound := env.bound[id.Name]; !bound {
+				for _, p := range fx.w.allPackages() {
+					if p.Name() != id.Name {
+						continue
+					}
+					if fn, ok := p.Scope().Lookup(sel.Sel).(*types.Func); ok {
+						var args []Val
+						for _, a := range e.Args {
+							args = append(args, fx.specEval(env, a))
+						}
+						return fx.specPureCall(env, fn, nil, args)
+					}
+				}
+			}
+		}
+		// method call on a program value
 		x := fx.specEval(env, sel.X)
 		if x.GT == nil {
 			sfail("method call on untyped term")
@@ -963,13 +1059,27 @@ func (env *SpecEnv) tryType(name string) (t types.Type) {
 func (fx *Fx) specPureCall(env *SpecEnv, fn *types.Func, recv *Val, args []Val) Val {
 	sig := fn.Type().(*types.Signature)
 	sp, key := fx.specFor(fn)
-	if sig.Results().Len() == 0 {
-		sfail("call of %s in contract: no result", key)
+	ri := env.resultIdx
+	if sig.Results().Len() <= ri {
+		sfail("call of %s in contract: no result %d", key, ri)
 	}
-	rt := sig.Results().At(0).Type()
+	rt := sig.Results().At(ri).Type()
+	if ri > 0 {
+		n := *env
+		n.resultIdx = 0
+		env = &n
+		if sp != nil && sp.Flags["pure"] != "" || sp == nil && (fx.pureGlob(key) || fx.pureIfaceMethod(fn)) {
+			k2 := key
+			if sp == nil {
+				k2 = "m|" + fn.Name() + "|" + key
+			}
+			return fx.pureAppSpecIdx(k2, ri, recv, args, rt)
+		}
+		sfail("second(): %s is not pure", key)
+	}
 	if sp == nil {
-		if fx.pureGlob(key) {
-			return fx.pureAppSpec(key, recv, args, rt)
+		if fx.pureGlob(key) || fx.pureIfaceMethod(fn) {
+			return fx.pureAppSpec("m|"+fn.Name()+"|"+key, recv, args, rt)
 		}
 		sfail("call of %s in a contract needs a pure contract", key)
 	}
@@ -1007,6 +1117,10 @@ func (fx *Fx) specPureCall(env *SpecEnv, fn *types.Func, recv *Val, args []Val) 
 }
 
 func (fx *Fx) pureAppSpec(key string, recv *Val, args []Val, rt types.Type) Val {
+	return fx.pureAppSpecIdx(key, 0, recv, args, rt)
+}
+
+func (fx *Fx) pureAppSpecIdx(key string, idx int, recv *Val, args []Val, rt types.Type) Val {
 	c := fx.c
 	var sorts, terms []string
 	if recv != nil {
@@ -1018,7 +1132,7 @@ func (fx *Fx) pureAppSpec(key string, recv *Val, args []Val, rt types.Type) Val 
 		terms = append(terms, a.T)
 	}
 	rs := c.sortOf(rt)
-	name := fmt.Sprintf("pf_%s_%d", sanitize(key), 0)
+	name := fmt.Sprintf("pf_%s_%d", sanitize(key), idx)
 	if len(sorts) == 0 {
 		c.declareConst(name, rs)
 		return Val{T: name, S: rs, GT: rt}
